@@ -3,8 +3,9 @@
    All theorems are about the S2 block-manager model (tree with the fixes for
    F01, F02, F14, F17, F26) and hold for EVERY parameter set [P], genesis
    filter header [gfh] and EVERY finite history [ops] of operations
-   (OHeaders, OInv, ONewPeer, ODonePeer, OWriteCF and ORollback, in any
-   order, with any arguments) from [init_state], i.e. in every reachable
+   (OHeaders, OInv, ONewPeer, ODonePeer, OWriteCF, ORollback and ORestart
+   — a new block manager built by newBlockManager over the same stores —, in
+   any order, with any arguments) from [init_state], i.e. in every reachable
    state [reach P gfh ops].  The only hypothesis is [in_domain ops]: fewer
    than 1,000,000 block headers delivered in total (the model converts
    heights to list positions exactly only below that bound).  No hypothesis
@@ -173,6 +174,18 @@ Theorem C19_backlog_fault_is_error : forall P gfh ops o k n h, in_domain (ops ++
 Proof. exact backlog_fault_is_error. Qed.
 Print Assumptions C19_backlog_fault_is_error.
 
+(* C19.8 — a restart (a new block manager built by newBlockManager over the
+   same stores) emits no notification, leaves both stores and the in-memory
+   filter tip as they were, has a single moment (the state after it), and
+   every backlog request is answered as before it. *)
+Theorem C19_restart_silent : forall P gfh ops, in_domain ops ->
+  let s := reach P gfh ops in let s' := step P s ORestart in
+  events s' = events s /\ chain s' = chain s /\ fchain s' = fchain s /\ ftipVar s' = ftipVar s /\
+  op_events s s' = [] /\ (forall k, moment_state s s' k = s') /\
+  (forall h, notifs_since h s' = notifs_since h s).
+Proof. exact restart_silent. Qed.
+Print Assumptions C19_restart_silent.
+
 (* Non-vacuity: a peer, two header batches and two filter-header batches
    (heights 1-2, then 3-4 of a chain of height 6); a 4-header branch forking
    at height 3 that removes block 4 (filter header committed) and blocks 5, 6
@@ -269,4 +282,30 @@ Example C19_moments_nonvacuous :
   notifs_fault_at_moment s0 s1 4 4 1 = Some ([(3, 2); (4, 3); (5, 4)], 4) /\
   notifs_fault_at_moment s1 s2 2 1 2 = None /\
   notifs_fault_at_moment s1 s2 2 2 2 = Some ([(4, 3)], 3).
+Proof. split; [vm_compute; reflexivity|]. vm_compute. repeat split; reflexivity. Qed.
+
+(* Non-vacuity with a restart: after nv_ops1 the process is restarted (a new
+   block manager over the same stores): nothing is emitted, every moment of
+   the restart is the state after it, the committed chain and the backlog
+   answers are unchanged, the in-memory window is the stored tip alone and
+   there is no peer.  A peer that connects afterwards reveals the branch of
+   nv_ops2, which forks three blocks below the only header in the window; it
+   is adopted and the three disconnected events are emitted as before. *)
+Definition nvr_reorg : op :=
+  OHeaders 2 2000 [nv_hdr 105 4 1041; nv_hdr 106 105 1051; nv_hdr 107 106 1061; nv_hdr 108 107 1071].
+Example C19_restart_nonvacuous :
+  in_domain (nv_ops1 ++ [ORestart; ONewPeer 2 0 100 true; nvr_reorg]) /\
+  let s1 := reach nv_P 900 nv_ops1 in
+  let s2 := step nv_P s1 ORestart in
+  let s3 := step nv_P s2 (ONewPeer 2 0 100 true) in
+  let s4 := step nv_P s3 nvr_reorg in
+  op_events s1 s2 = [] /\ moment_state s1 s2 0 = s2 /\
+  nv_show s2 = nv_show s1 /\
+  (map nheight (hl s2), syncPeer s2, cands s2, peers s2) = ([6], None, [], []) /\
+  (notifs_since 2 s2, notifs_since 0 s2, notifs_since 4 s2, notifs_since 5 s2) =
+    (Some ([(4, 3); (5, 4)], 4), Some ([], 4), Some ([], 4), None) /\
+  syncPeer s3 = Some 2 /\
+  nv_show s4 = ([1; 2; 3; 4; 105; 106; 107; 108], [900; 901; 902; 903], 3,
+                [EConn 2 1; EConn 3 2; EConn 4 3; EConn 5 4; EDisc 7 6 6; EDisc 6 5 5; EDisc 5 4 4], false) /\
+  op_events s3 s4 = [EDisc 7 6 6; EDisc 6 5 5; EDisc 5 4 4].
 Proof. split; [vm_compute; reflexivity|]. vm_compute. repeat split; reflexivity. Qed.
